@@ -10,8 +10,9 @@
                                      pending list and demoteUnexecutables only detects a gap in front
                                      (oracle signature reset-reinject-leaves-gap-in-pending; reachable on a
                                      self-consistent chain, directed history in the harness);
-                                     pending_executable_partial (no nonce-lowering reinjection) and the
-                                     affordability half are NOT proved yet;
+                                     the affordability half IS proved (C15_pending_affordable, with the
+                                     soundness of the cached ceilings C15_caps_sound); the ordering half
+                                     pending_executable_partial (no nonce-lowering reinjection) is NOT proved yet;
      2. unique_nonce p            — proved (C15_unique_nonce);
         all_is_union p            — proved (C15_all_is_union) since the /repo fix "removeTx re-queues
                                      invalidated successors also when the pending list becomes empty";
@@ -68,6 +69,23 @@ Theorem C15_removetx_requeues :
             map (fun kv => (fst kv, map thash (items (snd kv)))) (queue p) = [(0, [2])].
 Proof. exact leak_history_requeues. Qed.
 Print Assumptions C15_removetx_requeues.
+
+(* 1, affordability half: after every history from the empty pool, under every oracle, every pending transaction
+      costs at most its sender's balance in the CURRENT head state and fits the current block gas limit; and the
+      cached ceilings of every list (costcap / gascap, on which txList.Filter short-circuits) bound the list *)
+Theorem C15_pending_affordable : forall (h : list (oracle * op)) (c : cfg) (gp : Z) (cur0 : list (Z * (Z * Z))) (gas0 : Z) (p' : pool),
+  run (new_pool c gp cur0 gas0) h = Ok p' ->
+  forall a l, assoc a (pending p') = Some l ->
+    Forall (fun t => tcost t <= cur_balance p' a /\ tgas t <= maxgas p') (items l).
+Proof. intros h c gp cur0 gas0 p' H. exact (proj2 (affordable_invariant h c gp cur0 gas0 p' H)). Qed.
+Print Assumptions C15_pending_affordable.
+
+Theorem C15_caps_sound : forall (h : list (oracle * op)) (c : cfg) (gp : Z) (cur0 : list (Z * (Z * Z))) (gas0 : Z) (p' : pool),
+  run (new_pool c gp cur0 gas0) h = Ok p' ->
+  (forall a l, assoc a (pending p') = Some l -> Forall (fun t => tcost t <= costcap l /\ tgas t <= gascap l) (items l)) /\
+  (forall a l, assoc a (queue p') = Some l -> Forall (fun t => tcost t <= costcap l /\ tgas t <= gascap l) (items l)).
+Proof. intros h c gp cur0 gas0 p' H. exact (proj1 (affordable_invariant h c gp cur0 gas0 p' H)). Qed.
+Print Assumptions C15_caps_sound.
 
 (* 1 refuted: a reachable state whose pending list has a gap (nonces 0,2,3 with state nonce 0) *)
 Theorem C15_pending_executable_refuted :
